@@ -112,4 +112,4 @@ replace github.com/flant/shell-operator => /repo
 
 replace github.com/go-openapi/validate => github.com/flant/go-openapi-validate v0.19.12-flant.0
 
-replace verifsimrt => /verif/simrt
+replace verifsimrt => ../simrt
